@@ -6,7 +6,7 @@ unsafe impl Sync for NoSend {}
 struct Wrapped<T, M> { items: std::vec::IntoIter<T>, _m: M }
 impl<T, M> Iterator for Wrapped<T, M> { type Item = T; fn next(&mut self) -> Option<T> { self.items.next() } }
 fn main() {
-    let col: Vec<NoSend> = vec![NoSend(std::ptr::null()), NoSend(std::ptr::null()), NoSend(std::ptr::null())];
+    let col: Vec<std::rc::Rc<u64>> = vec![std::rc::Rc::new(7u64), std::rc::Rc::new(7u64), std::rc::Rc::new(7u64)];
     let it = Wrapped { items: col.into_iter(), _m: std::cell::Cell::new(7u64) }.into_con_iter();
     std::thread::scope(|s| { s.spawn(|| { let _ = it.next(); }); });
 }
